@@ -1668,6 +1668,8 @@ theorem step_inv {s s' : State} {op : Op} (hL : LInv s) (hC : CInvD D s) (hext :
   | surplusFund a b u x => have := surplusFund_inv hL hC h; exact ⟨this.1, this.2.1, fun _ _ => this.2.2⟩
   | v2SurplusClose a b u x => simp [Op.isV2Close] at hv2
   | v2DebtClose a b c d => simp [Op.isV2Close] at hv2
+  | v2Penalty a b c d =>
+    have := penalty_inv (app := a) (asset := c) (x := d) hL hC h; exact ⟨this.1, this.2.1, fun _ _ => this.2.2⟩
   | config c =>
     simp only [step] at h; simp at h; subst h
     have := config_inv (D := D) c hL hC; exact ⟨this.1, this.2.1, fun _ _ => this.2.2⟩
